@@ -111,7 +111,10 @@ func loadProgram() (*Program, error) {
 // runInit executes the package initialisers (allow-listed packages only) on a fresh machine.
 func (m *Machine) runInit(pkg *ssa.Package) error {
 	fn := pkg.Func("init")
+	m.keepHeap = true
 	res := m.Run(fn, "init", nil)
+	m.keepHeap = false
+	m.trail = m.trail[:0]
 	if res.Status != "ok" {
 		return fmt.Errorf("package init failed: %s %s %+v", res.Status, res.Reason, res.Violations)
 	}
@@ -135,7 +138,7 @@ func defaultConfig() *Config {
 		ConcretizeParams:  map[string][]int{},
 		ConcretizeResults: map[string][]int{},
 		LoopSymLimit:      64,
-		InstrLimit:        400_000_000,
+		InstrLimit:        instrLimit(),
 		PathLimit:         200_000,
 		ConcCap:           300,
 		SymIdxCap:         320,
@@ -218,6 +221,7 @@ func runItems(P *Program, items []WorkItem, workers int, witnessPer int, trace b
 					m.wantWitness = it.Spec.Witness
 				}
 				m.rng = uint64(seedOf()*7919+it.Idx+1) * 0x9e3779b97f4a7c15
+				m.noSummaries = it.Spec.NoSummaries
 				m.twin = it.Params["__twin"] == 1
 				if m.twin {
 					m.wantWitness = 0
@@ -228,7 +232,26 @@ func runItems(P *Program, items []WorkItem, workers int, witnessPer int, trace b
 					continue
 				}
 				t0 := time.Now()
+				if os.Getenv("VERIF_FORKPROF") != "" {
+					m.forkProf = map[string]int{}
+				}
 				res := m.Run(fn, it.Spec.Name, it.Params)
+				if m.forkProf != nil {
+					type kv struct {
+						k string
+						v int
+					}
+					var kvs []kv
+					for k, v := range m.forkProf {
+						kvs = append(kvs, kv{k, v})
+					}
+					sort.Slice(kvs, func(i, j int) bool { return kvs[i].v > kvs[j].v })
+					for i, e := range kvs {
+						if i < 25 {
+							fmt.Printf("  fork %6d %s\n", e.v, e.k)
+						}
+					}
+				}
 				out[it.Idx] = ItemResult{Item: it, Res: res, Wall: time.Since(t0).Seconds()}
 			}
 		}()
@@ -332,16 +355,18 @@ func runHarnessCLI(name string, ps map[string][]int, workers, wit int, trace, ve
 		return 3
 	}
 	fmt.Printf("loaded in %.1fs\n", P.loadS)
-	base := map[string][]int{}
-	for k, v := range spec.Quick {
-		base[k] = v
-	}
-	for k, v := range ps {
-		base[k] = v
-	}
 	var items []WorkItem
-	for i, p := range cartesian(base) {
-		items = append(items, WorkItem{Spec: spec, Params: p, Idx: i})
+	for _, g := range spec.Quick {
+		base := map[string][]int{}
+		for k, v := range g {
+			base[k] = v
+		}
+		for k, v := range ps {
+			base[k] = v
+		}
+		for _, p := range cartesian(base) {
+			items = append(items, WorkItem{Spec: spec, Params: p, Idx: len(items)})
+		}
 	}
 	t0 := time.Now()
 	res, err := runItems(P, items, workers, wit, trace)
@@ -382,4 +407,12 @@ func runHarnessCLI(name string, ps map[string][]int, workers, wit int, trace, ve
 	}
 	fmt.Printf("items=%d paths=%d instrs=%d queries=%d wall=%.1fs exit=%d\n", len(items), paths, instrs, q, time.Since(t0).Seconds(), code)
 	return code
+}
+
+func instrLimit() int64 {
+	if v := os.Getenv("VERIF_INSTR_LIMIT"); v != "" {
+		n, _ := strconv.ParseInt(v, 10, 64)
+		return n
+	}
+	return 400_000_000
 }
